@@ -67,6 +67,38 @@ def takesReadLock (t : LockTable) (name : String) : Bool :=
   | some evs => evs.contains .rlock
   | none => false
 
+/-! ### the bolt transactions of the methods working on the `meta` bucket (regenerated as
+    `Generated.dbMetaOps` by /verif/extract/dbmeta.go): what each transaction reads / writes of the three
+    markers, where `idF` is called, which `if` guards the acting part and on values read where -/
+
+inductive MetaKey where
+  | snapshotId | resetTimeline | timelineId
+  deriving DecidableEq, Repr
+
+inductive BoltTx where
+  | view | update
+  deriving DecidableEq, Repr
+
+inductive TxEv where
+  | read (k : MetaKey)           -- GetBoolWithDefault / GetString of the marker
+  | write (k : MetaKey)          -- SetString / SetBool of the marker
+  | guard (ks : List MetaKey)    -- an `if` around the idF call / the writes; the markers its condition depends on
+                                 -- through values read IN THE SAME transaction function
+  | idF                          -- the caller's id generator is invoked
+  deriving DecidableEq, Repr
+
+inductive MetaStep where
+  | tx (kind : BoltTx) (evs : List TxEv)   -- one <db>.View(func) / <db>.Update(ctx, func) on the method's top level
+  | decide (ks : List MetaKey)             -- an `if` OUTSIDE any transaction on values read from the markers earlier
+  deriving DecidableEq, Repr
+
+abbrev MetaOps := List (String × List MetaStep)
+
+def MetaOps.get (t : MetaOps) (name : String) : List MetaStep :=
+  match t.find? (fun e => e.1 == name) with
+  | some e => e.2
+  | none => []
+
 /-- the state a DbImpl carries between calls (the fields of `type DbImpl struct`, regenerated as
     `Generated.dbImplFields`) and what stands for each field in the model:
     rootBucket — constant after Open; reloadLock — Lock.lean; db — the handle (`Sys.db` is the file it
